@@ -5,6 +5,7 @@ import (
 	"context"
 	"encoding/json"
 	"fmt"
+	apierrors "k8s.io/apimachinery/pkg/api/errors"
 	"reflect"
 	"strings"
 
@@ -349,6 +350,7 @@ func hijackRT(raws []json.RawMessage) map[string]interface{} {
 				continue
 			}
 			st["updated"] = mustJSON(upd)
+			st["updated_nil"] = upd == nil
 			got2, err := sts.Get(ctx, x.Name, metav1.GetOptions{})
 			st["err_get2"] = errStr(err)
 			if err != nil {
@@ -361,12 +363,49 @@ func hijackRT(raws []json.RawMessage) map[string]interface{} {
 				st["diff_resubmit"] = shortDiff(got, got2)
 			}
 			st["template_unchanged"] = apiequality.Semantic.DeepEqual(got.Spec.Template, got2.Spec.Template)
+			st["updated_equals_got2"] = upd != nil && apiequality.Semantic.DeepEqual(upd, got2)
+			// a status written through the client is stored and comes back
+			sw := got2.DeepCopy()
+			sw.Status.Replicas, sw.Status.ReadyReplicas, sw.Status.CurrentRevision = 7, 6, "probe-rev"
+			us, err := sts.UpdateStatus(ctx, sw, metav1.UpdateOptions{})
+			st["err_updstatus"] = errStr(err)
+			if err == nil {
+				got3, err3 := sts.Get(ctx, x.Name, metav1.GetOptions{})
+				st["status_roundtrip"] = err3 == nil && us != nil && got3 != nil && got3.Status.Replicas == 7 && got3.Status.ReadyReplicas == 6 &&
+					got3.Status.CurrentRevision == "probe-rev" && apiequality.Semantic.DeepEqual(us.Status, got3.Status) &&
+					apiequality.Semantic.DeepEqual(got3.Spec, got2.Spec)
+				// put the status back so that the list comparison below sees what Get saw
+				if got3 != nil {
+					back := got3.DeepCopy()
+					back.Status = got2.Status
+					_, _ = sts.UpdateStatus(ctx, back, metav1.UpdateOptions{})
+				}
+			}
 			stored2, err := ascs.Tracker().Get(asGVR, ns, x.Name)
 			if err == nil && stored != nil {
 				st["stored_unchanged"] = apiequality.Semantic.DeepEqual(stored, stored2)
 			}
 		}
 		out["steps"] = steps
+		// errors of the server are errors of the client: a second Create of a stored name, and Get / Update / UpdateStatus /
+		// Delete of a name that is not stored
+		if len(order) > 0 {
+			first, _ := sts.Get(ctx, order[0], metav1.GetOptions{})
+			if first != nil {
+				dup := first.DeepCopy()
+				dup.ResourceVersion = ""
+				r, err := sts.Create(ctx, dup, metav1.CreateOptions{})
+				out["dup_create"] = map[string]interface{}{"err": errStr(err), "exists": apierrors.IsAlreadyExists(err), "result_nil": r == nil}
+				ghost := first.DeepCopy()
+				ghost.Name = "no-such-set"
+				r, err = sts.Update(ctx, ghost.DeepCopy(), metav1.UpdateOptions{})
+				out["ghost_update"] = map[string]interface{}{"err": errStr(err), "notfound": apierrors.IsNotFound(err), "result_nil": r == nil}
+				r, err = sts.UpdateStatus(ctx, ghost.DeepCopy(), metav1.UpdateOptions{})
+				out["ghost_updstatus"] = map[string]interface{}{"err": errStr(err), "notfound": apierrors.IsNotFound(err), "result_nil": r == nil}
+			}
+			r, err := sts.Get(ctx, "no-such-set", metav1.GetOptions{})
+			out["ghost_get"] = map[string]interface{}{"err": errStr(err), "notfound": apierrors.IsNotFound(err), "result_nil": r == nil}
+		}
 		l, err := sts.List(ctx, metav1.ListOptions{})
 		out["err_list"] = errStr(err)
 		if err == nil {
